@@ -5,7 +5,7 @@
    frame and error code to the stub body and returns with iretq is observed by entering every
    compiled stub (correspondence check), not proved; delivery by a real CPU (privilege and IST
    switches) is not modelled. *)
-From X86 Require Import Tables.General Tables.GeneralProofs Machine.AsmPins.
+From X86 Require Import Tables.General Tables.GeneralProofs Machine.AsmPins Machine.AsmPinsC13.
 Open Scope Z_scope.
 
 Theorem C13_installs_exactly_the_nonreserved_vectors_in_range : forall contains,
@@ -37,3 +37,10 @@ Print Assumptions C13_frame_value_has_the_hardware_layout.
 Theorem C13_iretq_sequence_pinned : pins_C13 = true.
 Proof. exact pins_C13_ok. Qed.
 Print Assumptions C13_iretq_sequence_pinned.
+
+(* every asm! block in this property's domain is, in the current source, exactly the block the
+   model was written against: template, operand bindings and the complete option list; and no
+   block of the crate is `pure`, `nostack` around a push/pop, or `nomem` with a memory operand *)
+Theorem C13_asm_blocks_exact : pins_C13_exact = true.
+Proof. exact pins_C13_exact_ok. Qed.
+Print Assumptions C13_asm_blocks_exact.
